@@ -85,6 +85,7 @@ void c14_probe_mixed()
   probe<int, std::int8_t>();
   probe<std::int8_t, std::int16_t>();
   probe<std::uint8_t, std::int8_t>();
+  probe<std::uint16_t, int>();
   probe<std::int8_t, long>();
   probe<std::int8_t, std::int8_t>();
 }
